@@ -211,3 +211,16 @@ Proof.
   - cbn. intros [H _]. specialize (H ix_custom_trace). vm_compute in H. now specialize (H eq_refl).
   - cbn. auto.
 Qed.
+
+(* no_collision: satisfied by inputs without a repeated trace number under one header key,
+   violated by the refutation witness of the batch-level order dependence *)
+Lemma ex_no_collision : no_collision [ex_u1; ex_u2] /\ List.length (ids_in (map erase_ifile [ex_u1; ex_u2])) = 2%nat.
+Proof.
+  split; [|reflexivity]. unfold no_collision. vm_compute.
+  constructor; [intros [H|[]]; discriminate H|]. constructor; [intros []|constructor].
+Qed.
+
+Lemma ex_collision : ~ no_collision [ex_a; ex_b].
+Proof.
+  unfold no_collision. intros H. vm_compute in H. inversion H as [|? ? Hn _]. apply Hn. left. reflexivity.
+Qed.
